@@ -345,6 +345,13 @@ def family_inc(tier='quick'):
                         [('X', 'A'), ('X', 'B'), ('X', 'C'), ('P0', 'M'), ('P1', 'M'), ('M', 'T')], ['X'],
                         choices=[('C1', 'A', ['S', 'Q1']), ('C2', 'B', ['P0', 'P1']), ('C3', 'C', ['R0', 'R1'])],
                         incompat=two_pairs[::-1] if flip else two_pairs, label=f'inc-two-constraints-one-unavoidable-{int(flip)}'))
+    # a node that derives the very node it is incompatible with (below an option: that option can never be feasible),
+    # once more below a nested choice; the conflict has a derivation edge between its two ends
+    out.append(Desc(['S', 'A', 'B', 'F', 'G', 'K', 'P', 'Q', 'R', 'T'], [('A', 'F'), ('F', 'G'), ('B', 'K'), ('P', 'R'), ('Q', 'T')], ['S'],
+                    choices=[('C1', 'S', ['A', 'B']), ('C2', 'K', ['P', 'Q'])], incompat=[('F', 'G'), ('P', 'R')],
+                    label='inc-node-derives-its-incompatible-node'))
+    out.append(Desc(['S', 'A', 'B', 'G'], [('A', 'G')], ['S'], choices=[('C1', 'S', ['A', 'B'])], incompat=[('G', 'A')],
+                    label='inc-option-derives-its-incompatible-node'))
     # incompatibility with a start node / between two permanent nodes (infeasible space) / option vs permanent
     out.append(Desc(['A', 'B', 'P0', 'P1'], [('A', 'B')], ['A'], choices=[('C1', 'A', ['P0', 'P1'])],
                     incompat=[('A', 'P0')], label='inc-start-vs-option'))
